@@ -29,7 +29,7 @@ import sys, os, re, json, time, hashlib, subprocess, shutil, concurrent.futures
 
 ROOT = os.path.dirname(os.path.dirname(os.path.abspath(__file__)))
 CACHE = os.path.join(ROOT, '.cache', 'memsize')
-COQ = os.path.join(ROOT, 'coq')
+COQ = os.environ.get('VERIF_COQ', os.path.join(ROOT, 'coq'))     # VERIF_COQ: only for testing the check itself
 
 REQUIRED = {
     'C08': ['C08_bulk', 'C08_mem', 'C08_container', 'C08_wrapper', 'C08_depth', 'C08_depth_empty_sections', 'C08_flat_iterator'],
@@ -177,7 +177,8 @@ def run_gen(cfg, prof, seed, reps, only=None):
         elif f[0] == 'TYPE':
             rec['types'][int(f[1])] = dict(tid=int(f[1]), name=f[2], ty=f[3], cases=[], bulk=[]); rec['order'].append(int(f[1]))
         elif f[0] == 'CASE':
-            rec['types'][int(f[1])]['cases'].append(dict(i=int(f[2]), val=f[3], hs=int(f[4]), ms=int(f[5]), vs=int(f[6]), live=int(f[7])))
+            rec['types'][int(f[1])]['cases'].append(dict(i=int(f[2]), val=f[3], hs=int(f[4]), ms=int(f[5]), vs=int(f[6]), live=int(f[7]),
+                                                          lower=(int(f[8]) if len(f) > 8 and f[8] != '-' else None)))
         elif f[0] == 'BULK':
             opt = lambda s: None if s == '-' else int(s)
             rec['types'][int(f[1])]['bulk'].append(dict(shape=f[2], idx=[int(x) for x in f[3].split(',') if x != ''],
@@ -284,6 +285,8 @@ def compare(rec, model):
                 fail('hs_live', T, 'heap_size() = bytes the value holds from the allocator (counting allocator)', c['live'], c['hs'], **kw)
             if table and c['hs'] > c['live']:
                 fail('hs_live', T, 'heap_size() <= bytes the value holds from the allocator (counting allocator)', '<= %d' % c['live'], c['hs'], **kw)
+            if c['lower'] is not None and c['hs'] < c['lower']:
+                fail('map_lower', T, 'heap_size() >= capacity() x entry size + heap_size() of every element (all measured on the implementation)', '>= %d' % c['lower'], c['hs'], **kw)
             if T['ty'].startswith('(TRef ') and c['hs'] != 0:
                 fail('ref_zero', T, 'a reference contributes heap_size() = 0', 0, c['hs'], **kw)
             m = model.get(('case', tid, c['i']))
@@ -295,8 +298,7 @@ def compare(rec, model):
             if vs != c['vs']: fail('vs_model', T, 'value_size(): Coq model vsz vs implementation', vs, c['vs'], **kw)
             if ab != c['live']: fail('alloc_model', T, 'alloc_bytes (model of what std keeps allocated) vs counting allocator', ab, c['live'], **kw)
             if (ex == 1) != (not table): fail('probe', T, 'exact_class agrees with the syntactic classification', int(not table), ex, **kw)
-            if T['ty'].startswith('(THash') and c['hs'] < lower:
-                fail('map_lower', T, 'heap_size() >= capacity x entry size + heap sizes of the elements', '>= %d' % lower, c['hs'], **kw)
+            # the model's own lower bound (`lower`) needs no comparison: it follows from hs_model and theorem C09_map
         for bi, b in enumerate(T['bulk']):
             n_eval += 1
             kw = dict(shape=b['shape'], yields_pool_indices=b['idx'], pool=[c['val'] for c in T['cases']])
